@@ -97,6 +97,10 @@ pub struct Epoch {
     pub open_seq: u64,
     pub complete_seq: Option<u64>,
     pub done_seen: bool,
+    /// the peer has unchoked us (again) since the client's last request for this piece: the client
+    /// re-decides at that point (new assignment, carry on, or give the piece up without a word),
+    /// so until it asks again nothing is owed on this piece
+    pub limbo: bool,
 }
 
 impl Epoch {
@@ -194,6 +198,7 @@ pub fn tiling_walk(v: &View, vd: &mut Verdict, report: bool) -> TilingOutcome {
                         e.requests.push((begin, len));
                         e.outstanding.push((begin, len));
                         e.owed = false;
+                        e.limbo = false;
                     }
                 }
             }
@@ -224,6 +229,7 @@ pub fn tiling_walk(v: &View, vd: &mut Verdict, report: bool) -> TilingOutcome {
                                 open_seq: seq,
                                 complete_seq: None,
                                 done_seen: false,
+                                limbo: false,
                             },
                         );
                     }
@@ -234,9 +240,15 @@ pub fn tiling_walk(v: &View, vd: &mut Verdict, report: bool) -> TilingOutcome {
                         None => continue,
                     };
                     // a piece completed by the model must have been reported before the next frame
+                    if frame.starts_with("Unchoke") {
+                        if let Some(e) = epochs.get_mut(&c) {
+                            e.limbo = true;
+                            e.owed = false;
+                        }
+                    }
                     if let Some(e) = epochs.get(&c) {
                         if let Some(cs) = e.complete_seq {
-                            if !e.done_seen && sha1(&e.buf) == t.piece_hashes[e.index] {
+                            if !e.done_seen && !e.limbo && sha1(&e.buf) == t.piece_hashes[e.index] {
                                 fail(vd, "C10.completion-missed", format!("conn {} piece {}: last outstanding block arrived at #{} but the piece was not completed", c, e.index, cs), seq);
                             }
                         }
@@ -263,7 +275,7 @@ pub fn tiling_walk(v: &View, vd: &mut Verdict, report: bool) -> TilingOutcome {
                                         fail(vd, "C10.no-followup-request", format!("conn {} piece {}: two blocks accepted in a row with unrequested blocks left and no new request", c, e.index), seq);
                                     }
                                     let covered = e.covered();
-                                    if !covered {
+                                    if !covered && !e.limbo {
                                         e.owed = true;
                                     }
                                     if covered && e.outstanding.is_empty() {
